@@ -148,6 +148,15 @@ def replay(rec):
         if r['cid'] is None and not (r['kind'] == 'eq' and 'x' in r['classes']):
             if set(r['classes']) - {'T', 't0', 'tn', 'Tl'} or not r['classes']:
                 res.append(('C04.g', 'mismatch', 'unexplained row %d kind=%s deps=%s' % (r['row'], r['kind'], r['classes'])))
+    # ---- grid rows (C06.f/g): all rows that involve only horizon / grid variables hold  <=>  declared feasibility
+    if 'gridfeas' in pred:
+        grows = [r for r in recs if r['cid'] is None and not (r['kind'] == 'eq' and 'x' in r['classes'])
+                 and r['classes'] and not (set(r['classes']) - {'T', 't0', 'tn', 'Tl'})]
+        feas = all((abs(r['vals'][0]) <= 1e-9) if r['kind'] == 'eq' else all(v >= -1e-9 for v in r['vals']) for r in grows)
+        res.append(('C06.f', 'ok' if feas == bool(pred['gridfeas']) else 'mismatch',
+                    'grid rows %s at this probe, declared partition/bounds %s; rows=%s' % (
+                        'hold' if feas else 'violated', 'hold' if pred['gridfeas'] else 'violated',
+                        [(r['kind'], [round(float(v), 6) for v in r['vals']], r['classes']) for r in grows])))
     # ---- objective (C05)
     if isbad(pred['f']): res.append(('C05.f', 'inconclusive', 'BAD arithmetic'))
     else: res.append(('C05.f', 'ok' if close(f, pred['f']) else 'mismatch', 'obs=%r pred=%s' % (f, Fr(*pred['f']))))
